@@ -663,6 +663,14 @@ func (r *DefaultRuleRenderer) StaticFilterForwardChains(ipVersion uint8) []*gene
 				Match:  r.NewMatch().InInterface(ifaceMatch),
 				Action: r.Jump(ChainFromWorkloadDispatch),
 			},
+		)
+	}
+	// Every "from workload" jump comes before any "to workload" jump: a to-workload endpoint chain
+	// can terminally accept (established flows) and, with more than one interface prefix, that must
+	// not pre-empt the from-workload dispatch (and its unknown-interface drop) of a later prefix.
+	for _, prefix := range r.WorkloadIfacePrefixes {
+		ifaceMatch := prefix + r.wildcard
+		rules = append(rules,
 			generictables.Rule{
 				Match:  r.NewMatch().OutInterface(ifaceMatch),
 				Action: r.Jump(ChainToWorkloadDispatch),
